@@ -1,4 +1,5 @@
 import JugModel.Props.C13
+import JugModel.Props.LoopBridge
 import JugModel.Props.WorkerBridge
 #print axioms Jug.C13.crash_always_enabled
 #print axioms Jug.C13.crash_preserves
@@ -11,3 +12,4 @@ import JugModel.Props.WorkerBridge
 #print axioms Jug.WorkerBridge.worker_conforms
 #print axioms Jug.C13.recovery_completes
 #print axioms Jug.C13.recovery_state_ok
+#print axioms Jug.LoopBridge.recovery_completes_of_loop_workers
